@@ -18,6 +18,7 @@ package storagemem
 
 import (
 	"context"
+	"errors"
 	"fmt"
 	"io"
 	"os"
@@ -310,6 +311,10 @@ func vm14NewReadBucket(ctx context.Context, v *vm14) int {
 	return len(cases)
 }
 
+// The same harness serves the C13 / C15 obligations of the package (registered per property).
+func TestVerifReplayC13(t *testing.T) { TestVerifReplayC14(t) }
+func TestVerifReplayC15(t *testing.T) { TestVerifReplayC14(t) }
+
 func TestVerifReplayC14(t *testing.T) {
 	fn := os.Getenv("VERIF_REPLAY_FUNC")
 	ctx := context.Background()
@@ -321,10 +326,12 @@ func TestVerifReplayC14(t *testing.T) {
 		"Data", "NewImmutableObject", "NewObjectInfo", "Path", "ExternalPath", "LocalPath", "ValidatePath", "ValidatePrefix":
 		tried += vm14Sequences(ctx, v)
 		tried += vm14NewReadBucket(ctx, v)
-	case "Close", "Write", "SetExternalPath", "SetLocalPath", "newWriteObjectCloser":
+	case "Close", "Write", "SetExternalPath", "SetLocalPath", "newWriteObjectCloser", "Read":
+		tried += vr4Closers(ctx, v)
 		tried += vm14Lifecycle(ctx, v)
 		tried += vm14Sequences(ctx, v)
-	case "NewReadBucket", "CopyReadBucket":
+	case "NewReadBucket", "CopyReadBucket", "ToReadBucket", "SetExternalAndLocalPathsSupported":
+		tried += vr4CopyReadBucket(ctx, v)
 		tried += vm14NewReadBucket(ctx, v)
 	default:
 		fmt.Printf("VERIF-REPLAY no harness for %q\n", fn)
@@ -335,4 +342,215 @@ func TestVerifReplayC14(t *testing.T) {
 	} else {
 		fmt.Printf("VERIF-REPLAY %d failing probes in total for %s (%d sequences tried)\n", v.found, fn, tried)
 	}
+}
+
+// ---------------------------------------------------------------------------------------------------------------
+// ca-R4: the object closers and CopyReadBucket
+//
+//   - read closer: for objects of 0 / 7 / 5000 bytes read with chunk sizes 1 / 3 / 4096: the bytes are the object's, Close
+//     succeeds once, every later Close and Read is storage.ErrClosed;
+//   - write closer: Write sequences before Close are stored exactly at Close (not before); a Write after Close is
+//     storage.ErrClosed, reports 0 bytes and appends nothing to the writer's buffer; a second Close is ErrClosed and does
+//     not store again; external/local paths can be set once;
+//   - CopyReadBucket: a memory bucket is returned as it is; any other bucket is copied object by object with external
+//     and local paths; if reading the input fails (walk error, Get error on the k-th object) the error is returned
+//     and no bucket.
+
+type vr4FailBucket struct {
+	storage.ReadBucket
+	failWalk bool
+	failGet  string
+}
+
+var vr4Marker = errors.New("marker failure of the input bucket")
+
+func (b *vr4FailBucket) Get(ctx context.Context, p string) (storage.ReadObjectCloser, error) {
+	if p == b.failGet {
+		return nil, vr4Marker
+	}
+	return b.ReadBucket.Get(ctx, p)
+}
+
+func (b *vr4FailBucket) Walk(ctx context.Context, prefix string, f func(storage.ObjectInfo) error) error {
+	if b.failWalk {
+		return vr4Marker
+	}
+	return b.ReadBucket.Walk(ctx, prefix, f)
+}
+
+func vr4Closers(ctx context.Context, v *vm14) int {
+	tried := 0
+	for _, size := range []int{0, 7, 5000} {
+		for _, chunk := range []int{1, 3, 4096} {
+			tried++
+			data := strings.Repeat("0123456789abcdef", size/16+1)[:size]
+			b := NewReadWriteBucket()
+			if err := storage.PutPath(ctx, b, "a/x", []byte(data)); err != nil {
+				v.report("storagemem: PutPath(\"a/x\", %d bytes) fails: %v", size, err)
+				continue
+			}
+			input := fmt.Sprintf("storagemem bucket with a/x = %d bytes: Get(\"a/x\"), Read in chunks of %d", size, chunk)
+			r, err := b.Get(ctx, "a/x")
+			if err != nil {
+				v.report("%s: Get fails: %v", input, err)
+				continue
+			}
+			var got []byte
+			buf := make([]byte, chunk)
+			for {
+				n, err := r.Read(buf)
+				got = append(got, buf[:n]...)
+				if err != nil {
+					if err != io.EOF {
+						v.report("%s: Read fails: %v", input, err)
+					}
+					break
+				}
+			}
+			if string(got) != data {
+				v.report("%s: read %d bytes that differ from the %d bytes stored", input, len(got), size)
+			}
+			if err := r.Close(); err != nil {
+				v.report("%s, Close: fails: %v", input, err)
+			}
+			for i := 2; i <= 3; i++ {
+				if err := r.Close(); err != storage.ErrClosed {
+					v.report("%s, then Close number %d returns %v; documented: only the first Close succeeds, later ones are storage.ErrClosed", input, i, err)
+				}
+			}
+			if n, err := r.Read(buf); err != storage.ErrClosed || n != 0 {
+				v.report("%s, Close, Read returns %d, %v; documented 0, storage.ErrClosed", input, n, err)
+			}
+		}
+	}
+	for _, writes := range [][]string{{}, {""}, {"abc"}, {"abc", "", "defg"}, {strings.Repeat("x", 5000), "y"}} {
+		for _, late := range []string{"", "L", "late data"} {
+			tried++
+			b := NewReadWriteBucket()
+			input := fmt.Sprintf("storagemem bucket: Put(\"a/x\"), writes of %d chunks", len(writes))
+			w, err := b.Put(ctx, "a/x")
+			if err != nil {
+				v.report("%s: Put fails: %v", input, err)
+				continue
+			}
+			want := ""
+			for _, c := range writes {
+				n, err := w.Write([]byte(c))
+				if n != len(c) || err != nil {
+					v.report("%s: Write(%d bytes) returns %d, %v", input, len(c), n, err)
+				}
+				want += c
+			}
+			if _, err := b.Stat(ctx, "a/x"); !storage.IsNotExist(err) {
+				v.report("%s, before Close: Stat(\"a/x\") returns %v; documented: the object exists only once the writer is closed", input, err)
+			}
+			if err := w.SetExternalPath("ext/a/x"); err != nil {
+				v.report("%s: SetExternalPath fails: %v", input, err)
+			}
+			if err := w.SetExternalPath("other"); err == nil {
+				v.report("%s: a second SetExternalPath succeeds; documented: the external path can be set once", input)
+			}
+			if err := w.SetLocalPath("local/a/x"); err != nil {
+				v.report("%s: SetLocalPath fails: %v", input, err)
+			}
+			if err := w.SetLocalPath("other"); err == nil {
+				v.report("%s: a second SetLocalPath succeeds; documented: the local path can be set once", input)
+			}
+			if err := w.Close(); err != nil {
+				v.report("%s, Close: fails: %v", input, err)
+			}
+			check := func(when string) {
+				got, err := storage.ReadPath(ctx, b, "a/x")
+				info, serr := b.Stat(ctx, "a/x")
+				if err != nil || serr != nil || string(got) != want {
+					v.report("%s, %s: the bucket holds %d bytes for a/x (%v, %v); documented: exactly the %d bytes written before Close", input, when, len(got), err, serr, len(want))
+				} else if info.ExternalPath() != "ext/a/x" || info.LocalPath() != "local/a/x" {
+					v.report("%s, %s: a/x has external/local path %q/%q; documented \"ext/a/x\"/\"local/a/x\"", input, when, info.ExternalPath(), info.LocalPath())
+				}
+			}
+			check("Close")
+			before := -1
+			if woc, ok := w.(*writeObjectCloser); ok {
+				before = woc.buffer.Len()
+			}
+			n, err := w.Write([]byte(late))
+			if n != 0 || err != storage.ErrClosed {
+				v.report("%s, Close, Write(%q) returns %d, %v; documented 0, storage.ErrClosed", input, late, n, err)
+			}
+			if woc, ok := w.(*writeObjectCloser); ok && woc.buffer.Len() != before {
+				v.report("%s, Close, Write(%q): the refused write grew the writer's buffer from %d to %d bytes; documented: a refused write appends nothing", input, late, before, woc.buffer.Len())
+			}
+			if err := w.Close(); err != storage.ErrClosed {
+				v.report("%s, Close, Write(%q), Close returns %v; documented storage.ErrClosed", input, late, err)
+			}
+			check(fmt.Sprintf("Close, Write(%q), Close", late))
+		}
+	}
+	return tried
+}
+
+func vr4CopyReadBucket(ctx context.Context, v *vm14) int {
+	tried := 0
+	for _, paths := range [][]string{{}, {"a/x"}, {"a/x", "a/y.z", "b"}} {
+		src := NewReadWriteBucket()
+		for _, p := range paths {
+			w, err := src.Put(ctx, p)
+			if err != nil {
+				return tried
+			}
+			_ = w.SetExternalPath("ext/" + p)
+			_ = w.SetLocalPath("local/" + p)
+			_, _ = w.Write([]byte("data of " + p))
+			_ = w.Close()
+		}
+		tried++
+		if got, err := CopyReadBucket(ctx, src); err != nil || got != storage.ReadBucket(src) {
+			v.report("CopyReadBucket(memory bucket with %q) returns %v, %v; documented: a memory bucket is returned as it is", paths, got, err)
+		}
+		if !src.SetExternalAndLocalPathsSupported() {
+			v.report("memory bucket: SetExternalAndLocalPathsSupported() is false")
+		}
+		// a foreign bucket is copied
+		tried++
+		foreign := &vr4FailBucket{ReadBucket: src}
+		input := fmt.Sprintf("CopyReadBucket(non-memory bucket with %q, external paths ext/<path>, local paths local/<path>)", paths)
+		got, err := CopyReadBucket(ctx, foreign)
+		if err != nil || got == nil {
+			v.report("%s fails: %v", input, err)
+		} else {
+			if _, isMem := got.(*bucket); !isMem {
+				v.report("%s returns a %T; documented: a memory bucket", input, got)
+			}
+			var seen []string
+			_ = got.Walk(ctx, "", func(i storage.ObjectInfo) error {
+				seen = append(seen, i.Path())
+				data, _ := storage.ReadPath(ctx, got, i.Path())
+				if string(data) != "data of "+i.Path() || i.ExternalPath() != "ext/"+i.Path() || i.LocalPath() != "local/"+i.Path() {
+					v.report("%s: the copy has %q with data %q, external %q, local %q", input, i.Path(), data, i.ExternalPath(), i.LocalPath())
+				}
+				return nil
+			})
+			sort.Strings(seen)
+			if fmt.Sprint(seen) != fmt.Sprint(paths) {
+				v.report("%s: the copy holds %q", input, seen)
+			}
+		}
+		// failures of the input are reported, no bucket is returned
+		failures := []*vr4FailBucket{{ReadBucket: src, failWalk: true}}
+		for _, p := range paths {
+			failures = append(failures, &vr4FailBucket{ReadBucket: src, failGet: p})
+		}
+		for _, f := range failures {
+			tried++
+			what := "whose Walk fails"
+			if !f.failWalk {
+				what = fmt.Sprintf("whose Get(%q) fails", f.failGet)
+			}
+			got, err := CopyReadBucket(ctx, f)
+			if !errors.Is(err, vr4Marker) || got != nil {
+				v.report("CopyReadBucket(non-memory bucket with %q %s) returns bucket=%v, error %v; documented: the failure is returned and no bucket", paths, what, got != nil, err)
+			}
+		}
+	}
+	return tried
 }
